@@ -1338,11 +1338,15 @@ def gen_cat_family(rng, main):
     The cases are built so that what an instruction object of the suite might keep from one case is wrong for another:
     case 0 and case 1 define the symbols of the entry with two DIFFERENT valid values, case 2 defines one of them WRONGLY
     (not at all / wrong type / wrong relativity / unparsable), case 3 is random and (60%) sets status / actor / home /
-    act-home in its own [conf].  30%: a second catalog entry (after the main one, so that it cannot mask it)."""
+    act-home in its own [conf].  30%: a second catalog entry (after the main one, so that it cannot mask it).
+    Cases 0 and 1 have no [conf] of their own and are never the case whose preprocessing fails."""
     entries = [main]
     if rng.chance(0.3):
         e = rng.choice(CATALOG)
-        if e is not main:
+        order = ['before-assert', 'assert', 'cleanup']
+        # ... only one whose instructions all come after those of the main entry: a failing instruction ends the phase (and,
+        # outside cleanup, the case), so an earlier one could hide what the main entry does
+        if e is not main and min(order.index(ph) for ph in e[1]) >= max(order.index(ph) for ph in main[1]):
             entries.append(e)
     suite = {}
     for _, phases, _ in entries:
@@ -1361,7 +1365,7 @@ def gen_cat_family(rng, main):
                 d = rng.choice(invalid) if name == wrong else valid[min(j, len(valid) - 1)]
                 if d is not None:
                     defs.append(d)
-        conf = list(rng.choice(CAT_CONF)) if rng.chance(0.6 if i == 3 else 0.1) else []
+        conf = list(rng.choice(CAT_CONF)) if rng.chance([0, 0, 0.15, 0.6][i]) else []  # never on the two reference cases
         cases.append({'conf': conf, 'defs': defs})
     last = [0, 1, 2, 3]
     rng.shuffle(last)
@@ -1371,7 +1375,7 @@ def gen_cat_family(rng, main):
         # the suite sets a preprocessor (a filter over the case file that fails on a marked case); one case is marked
         fam['suite']['conf'] = [CAT_PREPROCESSOR]
         fam['entries'].append('preprocessor')
-        cases[rng.below(len(cases))]['pp_fail'] = True
+        cases[2 + rng.below(2)]['pp_fail'] = True  # never one of the two reference cases
     return fam
 
 
